@@ -44,6 +44,8 @@ def run(ctx, chk):
     chk.rule("C07.zero", "a nested result of 0 makes the serializer return 0 before the result is used")
     chk.rule("C07.memcpy", "payload copy goes to buffer + w, is guarded by buffer_size - w >= length, and copies the length "
                            "announced in the head")
+    chk.rule("C07.size-encoder", "every encoder writes, for each argument value, the number of bytes of the shortest-form class of that "
+                                 "value - the same partition _cbor_encoded_header_size uses (shared with C03.shortest)")
     chk.rule("C07.size-leaf", "cbor_serialized_size returns for every leaf type/width the length the matching encoder writes")
     chk.rule("C07.size-header", "_cbor_encoded_header_size partitions the values exactly like the shortest-form selector")
     chk.rule("C07.size-sum", "composite sizes are header (or 2 for indefinite) plus members, combined only through the "
@@ -60,6 +62,10 @@ def run(ctx, chk):
         for rule, inst, ok, where, detail in res:
             if rule == "guard":
                 chk.ob("C07.guard", inst, ok, where, fn=n, detail=detail)
+            elif rule in ("shortest", "cover"):
+                # the number of bytes an encoder writes for a value is the head size the sizing routine computes for that
+                # value (_cbor_encoded_header_size is checked against the same shortest-form classes: C07.size-header)
+                chk.ob("C07.size-encoder", inst, ok, where, fn=n, detail=detail)
     chk.floor("C07.guard", "public encoders", len(encs), 27)
 
     # (2) windows
@@ -168,6 +174,11 @@ def run(ctx, chk):
                    detail="" if v == S else "*buffer_size = %s" % DR.fmt_term(v))
         chk.ob("C07.alloc", "path %d: returns what cbor_serialize wrote" % k, pa.ret == ser[0].res, where, fn=f.name, key="alloc-ret:%d" % k)
     chk.floor("C07.alloc", "success paths", nsucc, 2)
+    chk.rule("C07.null-belief", "a pointer parameter that the function itself compares with NULL (an optional out-parameter) is accessed only "
+             "where the path has established it is not NULL (cbor_serialize_alloc behaves the same with and without the optional size out-parameter)")
+    import rules as _rnb
+    import ownership as _Onb
+    _rnb.check_null_belief(chk, "C07.null-belief", prog, _Onb.PathCache(prog, eff))
     chk.exhaustive = True
 
 
@@ -176,7 +187,8 @@ def check_size(chk, prog, eff, cache, H=None):
     PA_ = _ts.PredAlgebra(prog)
     CS_ = _ts.CallSites(prog, eff, cache, {}, PA_)
     CS_H = _ts.CallSites(prog, eff, cache, H or {}, PA_)
-    f = prog.fn("cbor_serialized_size")
+    import serializer_rules as SR_
+    f, _size_names = SR_.size_core(prog, eff, cache)
     where = "%s:%d" % (f.file, f.line)
     T = prog.enum("cbor_type")
     IW = prog.enum("cbor_int_width")
@@ -206,9 +218,26 @@ def check_size(chk, prog, eff, cache, H=None):
     # expected leaf lengths from the encoder tables: width -> bytes
     nleaf = 0
     sums = 0
+    nzero = 0
+    npaths_ = 0
+    chk.rule("C07.size-total", "the sizing routine answers 0 (overflow / does not fit) only through the zero-signalling add: no path "
+                               "returns the constant 0 for an item whose type and width lie inside the enumerations")
     for k, pa in enumerate(cache.get(f.name, inline_static=True)):
         st = pa.st
         tys_, iw_, fw_, _fl = CS_.summary(f, pa, ("arg", 0))
+        npaths_ += 1
+        if pa.ret == ("c", 0) and tys_:
+            # 0 is the overflow signal (and what cbor_serialize_alloc reports as failure): the sizing routine may produce it
+            # only through the signalling add; a path that answers 0 by itself for an item of the enumeration disagrees with
+            # the serializer, which encodes that item
+            nzero += 1
+            outside = (set(tys_) <= {T["CBOR_TYPE_UINT"], T["CBOR_TYPE_NEGINT"]} and not iw_) or (sorted(tys_) == [T["CBOR_TYPE_FLOAT_CTRL"]] and not fw_)
+            chk.ob("C07.size-total", "%s path %d: 0 is returned only through the signalling add" % (f.name, k), outside, where, fn=f.name,
+                   key="sizetotal:%d" % k, detail="" if outside else "returns 0 by its own decision for items of type %s under %s: "
+                   "cbor_serialize encodes such an item, cbor_serialized_size says it has no size"
+                   % (sorted(tys_), [DR.fmt_term(t) for t, _tr, _ in pa.facts][:3]), path=pa.block_lines() if not outside else None)
+            if not outside:
+                continue
         if not tys_ or len(tys_) == 8:
             continue   # infeasible path or the arm for a value outside the enumeration
         ty = sorted(tys_)
@@ -282,6 +311,7 @@ def check_size(chk, prog, eff, cache, H=None):
                     if isinstance(a, tuple) and a[0] == "op" and a[1] in ("add", "mul"):
                         chk.ob("C07.size-sum", "path %d: operand of the signalling add is itself an unchecked %s" % (k, a[1]), False, e.ins.loc(),
                                fn=f.name, key="rawop:%d" % e.ins.line)
+    chk.floor("C07.size-total", "sizing paths examined", npaths_, 20)
     # no raw 64-bit add of two non-constant values in the function at all
     for i in f.all_insts():
         if i.op in ("add", "mul") and i.type == "i64":
